@@ -216,6 +216,7 @@ type TablesCase struct {
 	WordOrder []string       `json:"wordOrder"` // insertion order
 	GoCode    string         `json:"goCode"`    // a Go file with several types
 	GoName    string         `json:"goName"`
+	LogFiles  []int          `json:"logFiles,omitempty"` // change counts of 11-14 files touched by `fix:` commits (ties across rank 10)
 	Reps      int            `json:"reps,omitempty"`
 }
 
@@ -255,6 +256,11 @@ func genTables(t *rapid.T) TablesCase {
 	}
 	c.GoCode = b.String()
 	c.GoName = "demo/demo.go"
+	// change-log summary of one keyword over more than ten files, most of them tied
+	nf := rapid.IntRange(11, 14).Draw(t, "nLogFiles")
+	for i := 0; i < nf; i++ {
+		c.LogFiles = append(c.LogFiles, rapid.SampledFrom([]int{1, 1, 1, 2, 3}).Draw(t, "logFileCount"))
+	}
 	return c
 }
 
@@ -277,6 +283,29 @@ func checkTables(c TablesCase) pbt.Verdict {
 			}
 			return []report{{"cloc-rows", js(rows), "header " + strings.Join(rows[0], ",") + "\n" + multiset(lines)}}
 		})
+		// the change-log summary cuts each section at ten rows: the rows shown are a collection
+		// that must not depend on the run
+		out = append(out, guard("changelog-cut", func() []report {
+			var msgs []git.CommitMessage
+			round := 0
+			for more := true; more; round++ {
+				more = false
+				m := git.CommitMessage{Rev: fmt.Sprintf("%07x", 0xabc000+round), Author: "Ann", Date: "2020-01-01", Message: "fix: round"}
+				for i, n := range c.LogFiles {
+					if n > round {
+						more = true
+						m.Changes = append(m.Changes, git.FileChange{Added: 1, File: fmt.Sprintf("src/f%02d.go", i)})
+					}
+				}
+				if len(m.Changes) > 0 {
+					msgs = append(msgs, m)
+				}
+			}
+			var buf bytes.Buffer
+			git.ShowChangeLogSummary(msgs, &buf)
+			lines := strings.Split(strings.TrimSpace(buf.String()), "\n")
+			return []report{{"changelog-cut", buf.String(), multiset(lines)}}
+		})...)
 		// SortWord on a map given directly
 		out = append(out, guard("sort-word", func() []report {
 			words := map[string]int{}
